@@ -3,7 +3,7 @@ CFG = {'streams': [{'name': 'C03',
               'n_quick': 200,
               'n_thorough': 2000,
               'thorough_seeds': 2,
-              'what_fails': 'probe stanzas recording every capture: model vs implementation in strict (codes 1-7) or lazy (100+code) mode; 90 an '
+              'what_fails': 'probe stanzas recording every capture: model vs implementation in strict (codes 1-7) or lazy (100+code) mode; 95 the recorded strict (stanza-indexed) and merged (file-indexed) matches are not related as assumptions A1-A3 say (Model/IdxBridge.v idx_agreeb, evaluated in Coq); 90 an '
                             "oracle assumption A1-A3 about tree-sitter's merged query fails; 91 the public match visitor disagrees with the raw "
                             'matches or between modes; 92 (large direct-only cases) strict or lazy execution does not run one block per raw stanza match'}],
  'rule': '2-5 stanzas drawn from a pool of 14 query shapes (fields, wildcards, alternation, anchors, #eq? predicate, ?, *, + captures, names shared '
